@@ -1,5 +1,5 @@
 CONSTANTS Worlds <- WorldsSmall
-          Starts = {4}
+          Starts = {6}
           Horizon = 19
           MaxStep = 2
           CutLag = 2
